@@ -320,7 +320,7 @@ def mart_product(S, I, which, finiteN):
             S.eq("hist[j]=min(1,1/T_j)+conventions", hist.at(j), mart_hist_spec(T.at(j + 1), mu(j), j, n, u, Nspec, t, Stot))
             continue
         if not inst(iadd(j, 1)):
-            S.holds("prerequisite: running products agree", False)
+            S.undecided("hist[j]=min(1,1/T_j)+conventions (running products lemma not discharged)")
             continue
         Fc = cps[0].fold("*")
         Tc, Ts, muj = Fc.at(iadd(j, 1)), T.at(iadd(j, 1)), mu(j)
@@ -457,7 +457,7 @@ def mart_wf(S, I, which, finiteN):
     l_hw = S.holds("hist[w] = minimum(1, 1/terms[w])", xsame(hist.at(w), e_hist(Tw)))
     l_p = S.holds("p = min(1, 1/max(terms))", xsame(p, e_p))
     if not (instT(j) and instT(w) and instT(wn)) or any(r.status != "proved" for r in (l_hj, l_hw, l_p)):
-        S.holds("prerequisite lemmas of the p-value clauses", False)
+        S.undecided("p-value clauses (prerequisite lemmas not discharged)")
         return
     # contract of np.max (assumed, numpy model): NaN iff some entry NaN; else the maximum, attained at w
     inr = lambda i: band(icmp(">=", i, 0), icmp("<", i, n))
@@ -761,7 +761,12 @@ def prefix_sum_lemma(S, x, y, k, name="prefix-sums-agree"):
     if x.items is not None:
         return lambda i: True
     Px, Py = x.fold("+"), y.fold("+")
-    return scoped_induction(S, name, lambda i: xsame(Px.at(i), Py.at(i)), k)
+    if Px is Py:
+        return lambda i: True
+    inst = scoped_induction(S, name, lambda i: xsame(Px.at(i), Py.at(i)), k)
+    if inst(0):
+        set_alias(Py, Px, k)      # proved: from now on PS_y(i) is read as PS_x(i) for 0 <= i <= k
+    return inst
 
 
 def relational_setup(S, I, finiteN, trunc):
@@ -863,7 +868,10 @@ def product_agree_lemma(S, tx, ty, k, pre, name="running-products-agree"):
         S.holds("exactly-one-running-product", False)
         return None
     Fx, Fy = cx[0].fold("*"), cy[0].fold("*")
-    return scoped_induction(S, name, lambda i: xsame(Fx.at(i), Fy.at(i)), k, pre=pre)
+    inst = scoped_induction(S, name, lambda i: xsame(Fx.at(i), Fy.at(i)), k, pre=pre)
+    if inst(0):
+        set_alias(Fy, Fx, k)
+    return inst
 
 
 def scoped_induction(S, name, P, hi, pre=None):
@@ -884,7 +892,15 @@ def scoped_induction(S, name, P, hi, pre=None):
 
     def inst(j):
         if ok:
-            c.assume(bimp(band(icmp(">=", j, 0), icmp("<=", j, hi)), P(zi(j))))
+            # state the instance over the un-aliased ghost terms (values read eagerly before an alias was installed
+            # still mention them)
+            ALIAS_ON[0] = False
+            EPOCH[0] += 1
+            try:
+                c.assume(bimp(band(icmp(">=", j, 0), icmp("<=", j, hi)), P(zi(j))))
+            finally:
+                ALIAS_ON[0] = True
+                EPOCH[0] += 1
         return ok
     return inst
 
@@ -938,8 +954,10 @@ def mart_na(S, I, which, finiteN, trunc):
         instB(k)
         PSx = x.fold("+")
         exceeds = False if Nspec is None else xcmp(">", PSx.at(k), xmul(XR.const(Nspec), t))
-        S.holds("truncation: last entry equal, or total exceeds N t and entry is 0",
-                bor(xsame(h_x.at(zi(k) - 1), h_y.at(zi(k) - 1)), band(exceeds, xsame(h_y.at(zi(k) - 1), XR.const(0)))))
+        S.holds("truncation: total exceeds N t => last entry of the truncated history is 0",
+                xsame(h_y.at(zi(k) - 1), XR.const(0)), extra=[zb(exceeds)])
+        S.holds("truncation: otherwise the last entry is unchanged",
+                xsame(h_x.at(zi(k) - 1), h_y.at(zi(k) - 1)), extra=[zb(bnot(exceeds))])
     S.check_vacuity("mart_na")
 
 
@@ -1012,10 +1030,12 @@ def shrink_post(S, I, variant):
         ek = r.at(k)
         spec, mu, cap = shrink_spec(x, k, u, t, Nspec, eta0, c_, d, f, minsd)
         S.eq("eta_k = min(u(1-eps), max(weighted_k, mu_k + c/sqrt(d+k)))", ek, spec)
-        S.holds("eta_k in [0,u), not NaN", band(xr(ek).fin(), xcmp(">=", ek, zero), xcmp("<", ek, u)))
+        r_ = S.holds("eta_k in [0,u), not NaN", band(xr(ek).fin(), xcmp(">=", ek, zero), xcmp("<", ek, u)))
+        if hasattr(r_, "status"):
+            r_.props = ["C13", "C11", "C01"]
         # K6 (known finding): on the knife edge u(1-eps) <= mu_k < u the estimate is not above mu_k
         S.known("K6", "eta_k > mu_k whenever mu_k < u", bimp(xcmp("<", mu, u), xcmp(">", ek, mu)),
-                carve=xcmp(">=", mu, cap))
+                carve=xcmp(">=", mu, cap), props=["C13", "C01"])
 
 
 @script(["C05", "C01"], "NonnegMean.shrink_trunc/predictable", variants=(("finiteN",), ("infN",)))
@@ -1118,11 +1138,14 @@ def agrapa_post(S, I, variant):
         lk = r.at(k)
         spec, mu, ck, nan_case = agrapa_spec(x, k, u, t, Nspec, lam, c0, cm, cg)
         S.eq("lam_k = max(0, min(c_k/mu_k, raw_{k-1}))", lk, spec)
-        S.holds("c_k in [c_0, c_max]", band(xcmp(">=", ck, c0), xcmp("<=", ck, cm)))
+        r_ = S.holds("c_k in [c_0, c_max]", band(xcmp(">=", ck, c0), xcmp("<=", ck, cm)))
+        if hasattr(r_, "status"):
+            r_.props = ["C13", "C01"]
         ok_mu = band(xcmp(">", mu, zero), xcmp("<=", mu, u))
         # K3 (known finding): the bet is NaN (0/0) when the running mean equals the null mean with zero variance
         S.known("K3", "0 <= lam_k and lam_k*mu_k <= c_k < 1 where 0 < mu_k <= u, not NaN",
-                bimp(ok_mu, band(xr(lk).fin(), xcmp(">=", lk, zero), xcmp("<=", xmul(lk, mu), ck))), carve=nan_case)
+                bimp(ok_mu, band(xr(lk).fin(), xcmp(">=", lk, zero), xcmp("<=", xmul(lk, mu), ck))), carve=nan_case,
+                props=["C13", "C11", "C01"])
 
 
 @script(["C05", "C01"], "NonnegMean.agrapa/predictable", variants=(("finiteN",), ("infN",)))
@@ -1400,7 +1423,7 @@ def generic_wf(S, I, fn, self, x, n, native, factor_ok, hist_of, p_of, agg, ro, 
         instT = S.forall_lemma("terms[i] admissible", n, _adm)
         eo = []
         if not (instT(j) and instT(w) and instT(wn)):
-            S.holds("prerequisite lemmas of the p-value clauses", False)
+            S.undecided("p-value clauses (prerequisite lemmas not discharged)")
             return
         if known:
             hold("p in [0,1], not NaN", hist_ok_v(p))
@@ -1408,7 +1431,7 @@ def generic_wf(S, I, fn, self, x, n, native, factor_ok, hist_of, p_of, agg, ro, 
             hold("p = hist[w] (random order, extreme attained)", xsame(p, hist.at(w)))
             return
         if any(r_.status != "proved" for r_ in [l1, l2, l3] + eo):
-            S.holds("prerequisite lemmas of the p-value clauses", False)
+            S.undecided("p-value clauses (prerequisite lemmas not discharged)")
             return
         inr = lambda i: band(icmp(">=", i, 0), icmp("<", i, n))
         op = ">=" if which == "max" else "<="
